@@ -293,9 +293,14 @@ def _helpers(ctx):
                     and isinstance(outer_loop.target, ast.Name):
                 comp_ok = (i.id == outer_loop.target.id and j.id == inner.id)
                 # extents: outer over shape[0], inner over shape[1]
-                o_it = ast.unparse(outer_loop.iter)
-                i_it = ast.unparse(n.generators[0].iter)
-                comp_ok = comp_ok and "shape[0]" in o_it and "shape[1]" in i_it
+                Nx = Normalizer(m, ex, inline=False)
+                shp = lambda k: ("call", "builtins.range", (("sub", ("attr", ("n", "cvx_expr"), "shape"), ("c", k)),), ())  # noqa: E731
+                comp_ok = comp_ok and Nx(outer_loop.iter) == shp(0) and Nx(n.generators[0].iter) == shp(1) and not n.generators[0].ifs
+                # every row built is kept
+                row_name = next((st.targets[0].id for st in outer_loop.body if isinstance(st, ast.Assign) and st.value is n and isinstance(st.targets[0], ast.Name)), None)
+                kept = row_name is None or any(isinstance(x, ast.Call) and getattr(x.func, "attr", "") == "append" and x.args and isinstance(x.args[0], ast.Name) and x.args[0].id == row_name
+                                               for st in outer_loop.body for x in ast.walk(st))
+                comp_ok = comp_ok and kept
                 ctx.ob("R-SHAPE", ex, "entry (i,j) -> rows[i][j]", bool(comp_ok),
                        "the variable is unpacked row by row without transposition" if comp_ok else
                        "the entrywise unpacking transposes or mis-sizes the variable", n)
